@@ -629,7 +629,7 @@ func c36Multiset(rows []string) map[string]int {
 }
 
 func c36ErrClass(msg string) string {
-	for _, k := range []string{"unbounded query", "unsupported where clause", "time window is invalid", "scan full limit exceeds", "limit exceeds", "tail cannot be combined", "invalid timestamp", "select requires"} {
+	for _, k := range []string{"unbounded query", "unsupported where clause", "time window is invalid", "scan full limit exceeds", "limit exceeds", "scan segments exceeds", "scan bytes exceeds", "queue", "tail cannot be combined", "invalid timestamp", "select requires"} {
 		if strings.Contains(msg, k) {
 			return k
 		}
@@ -662,6 +662,18 @@ func TestVF_C36_Select(t *testing.T) {
 			Query: config.QueryConfig{DefaultLimit: rapid.SampledFrom([]int{1000, 1000, 2, 5}).Draw(t, "defaultLimit"),
 				RequireTimeBound: rapid.IntRange(0, 3).Draw(t, "requireBound") == 0, MaxUnbounded: 10000},
 		}
+		// the remaining query guardrails of config.QueryConfig: they may reject a query, never change a result
+		cfg.Query.MaxRows = rapid.SampledFrom([]int{0, 0, 100000, 2, 3, 5}).Draw(t, "maxRows")
+		if cfg.Query.MaxRows > 0 && cfg.Query.MaxRows < cfg.Query.DefaultLimit && rapid.IntRange(0, 3).Draw(t, "fitDefault") != 0 {
+			cfg.Query.DefaultLimit = cfg.Query.MaxRows // otherwise every query without LIMIT is rejected
+		}
+		cfg.Query.MaxUnbounded = rapid.SampledFrom([]int{10000, 10000, 10000, 3}).Draw(t, "maxUnbounded")
+		cfg.Query.MaxScanSegments = rapid.SampledFrom([]int{0, 0, 0, 0, 0, 2, 5}).Draw(t, "maxScanSegments")
+		cfg.Query.MaxScanBytes = int64(rapid.SampledFrom([]int{0, 0, 0, 0, 0, 400, 100000}).Draw(t, "maxScanBytes"))
+		cfg.Query.TimeoutSeconds = rapid.SampledFrom([]int{0, 30}).Draw(t, "timeout")
+		cfg.Query.MaxConcurrent = rapid.SampledFrom([]int{0, 0, 1, 20}).Draw(t, "maxConcurrent")
+		cfg.Query.QueueSize = rapid.SampledFrom([]int{0, 5}).Draw(t, "queueSize")
+		cfg.Query.QueueTimeoutSec = rapid.SampledFrom([]int{0, 10}).Draw(t, "queueTimeout")
 		statsMode := rapid.SampledFrom([]string{"timeindex", "timeindex", "timeindex", "none", "manifest", "manifest+timeindex"}).Draw(t, "statsMode")
 		cfg.TimeIndex.Enabled = strings.Contains(statsMode, "timeindex")
 		if rapid.Bool().Draw(t, "suffix") {
@@ -848,6 +860,15 @@ func TestVF_C36_Select(t *testing.T) {
 				}
 			}
 			st.Class("stats:" + statsMode + "/" + sidePolicy)
+			if cfg.Query.MaxRows > 0 && cfg.Query.MaxRows <= 5 {
+				st.Class("cfg:small-max_rows")
+				if q.Order && len(exp.matches) > cfg.Query.MaxRows {
+					st.Class("order-by+matches>max_rows")
+				}
+			}
+			if cfg.Query.MaxScanSegments > 0 || cfg.Query.MaxScanBytes > 0 {
+				st.Class("cfg:scan-limits")
+			}
 
 			// which segments of the topic were actually fetched?
 			fetched := map[string]bool{}
